@@ -18,7 +18,9 @@ def oracle_swt(ck, m, J, filt, x, tol=0.0, named=None):
     except Exception:
         return None
     case = rt.Case('Z', 'SWTForward', [m, J, len(filt)], list(filt) + [x])
-    got = rt.run_impl(case, IMPL)
+    from .. import impl_dwt
+    with impl_dwt.named(named):
+        got = rt.run_impl(case, IMPL)
     desc = 'SWTForward mode=%s J=%d L=%d shape=%s %s' % (gen.MODE_NAME[m], J, len(filt[0]), tuple(x.shape), named or 'integer filters')
     replay = {'oracle': 'swt', 'm': m, 'J': J, 'filt': [arr_json(f) for f in filt], 'x': arr_json(x), 'tol': tol, 'named': named}
     if isinstance(got, tuple):
